@@ -1,6 +1,6 @@
 #!/usr/bin/env python3
 import json, glob
-print("| change | breaks | what it needs to manifest (short) | repo tests | detected by (quick tier) |")
+print("| change | breaks | the change (author's one-line summary; details and trigger in seeded/<id>/README.md, meta.json) | repo tests | detected by (quick tier) |")
 print("|---|---|---|---|---|")
 for f in sorted(glob.glob('/verif/seeded/*/meta.json')):
     m = json.load(open(f))
